@@ -117,57 +117,44 @@ def _obs_violation(o, b, seed):
 
 def run(ctx):
     violations = []
-    par = ctx.pick(3, 10)
+    par = ctx.pick(3, 9)
     maxlen = ctx.pick(3, 4)
     listlen = ctx.pick(3, 4)
     nep = n_epochs(listlen)
     dom_env = {"VERIF_MAXLEN": maxlen, "VERIF_LISTLEN": listlen}
 
-    # ---- 1. design (laws on the reference) and 2. T->I tables, together with the Go build
+    # ---- 1. design (laws on the reference) and 2. T->I tables: module RevEpochTable with RevEpoch_mc.cfg does
+    #         both in one JVM -- the law invariants are checked on, and the reference tabulated over, the same
+    #         inputs (VERIF_KINDS: rev 1 + str 2 + ep 4 + cr 8; epochs sliced VERIF_LO..VERIF_HI). With the Go build.
     tabdir = ctx.subdir("tables")
-    ep_chunks = _chunks(nep, ctx.pick(1, 10))
-    law_jobs = []
-
-    def law(kinds, lo, hi, tag, min_states):
-        env = {k: str(v) for k, v in dom_env.items()}
-        env.update({"VERIF_KINDS": str(kinds), "VERIF_LO": str(lo), "VERIF_HI": str(hi)})
-        env.update(rt.JVM_SMALL)
-        return lambda: rt.laws(ctx, "RevEpoch", "RevEpoch_mc.cfg", env=env, min_states=min_states, workers=1,
-                               timeout=TLC_TIMEOUT, name="laws_" + tag)
     n_rsc = 31 + n_strings(maxlen) + 289
-    if ctx.quick:
-        law_jobs.append(law(15, 1, nep, "all", n_rsc + nep))
-    else:
-        law_jobs.append(law(11, 1, 1, "rev_str_cr", n_rsc))
-        for lo, hi in ep_chunks:
-            law_jobs.append(law(4, lo, hi, "ep_%d" % lo, hi - lo + 1))
-
     tables = []
+    expected_states = []
 
-    def tab(part, lo, hi, tag):
+    def lawtab(kinds, lo, hi, tag, nstates):
         out = os.path.join(tabdir, "t_%s.json" % tag)
         tables.append(out)
+        expected_states.append(nstates)
         env = dict(dom_env)
-        env.update({"VERIF_PART": part, "VERIF_LO": lo, "VERIF_HI": hi})
-        return lambda: rt.table(ctx, "RevEpochTable", "RevEpochTable.cfg", out, env, name="tab_" + tag, timeout=TLC_TIMEOUT)
-    tab_jobs = []
+        env.update({"VERIF_KINDS": kinds, "VERIF_LO": lo, "VERIF_HI": hi})
+        return lambda: rt.table(ctx, "RevEpochTable", "RevEpoch_mc.cfg", out, env, name="lawtab_" + tag, timeout=TLC_TIMEOUT)
+    jobs = []
     if ctx.quick:
-        tab_jobs.append(tab("all", 1, nep, "all"))
+        jobs.append(lawtab(15, 1, nep, "all", n_rsc + nep))
     else:
-        tab_jobs.append(tab("rev", 1, 1, "rev"))
-        tab_jobs.append(tab("canread", 1, 1, "canread"))
-        for lo, hi in ep_chunks:
-            tab_jobs.append(tab("epoch", lo, hi, "epoch_%d" % lo))
-
-    res = rt.parallel([lambda: goharness.ext_test_build(ctx, PKG)] + law_jobs + tab_jobs, par + 1)
+        jobs.append(lawtab(11, 1, 1, "rev_str_cr", n_rsc))
+        for lo, hi in _chunks(nep, 8):
+            jobs.append(lawtab(4, lo, hi, "ep_%d" % lo, hi - lo + 1))
+    res = rt.parallel([lambda: goharness.ext_test_build(ctx, PKG)] + jobs, par + 1)
     binary = res[0]
-    mcs = res[1:1 + len(law_jobs)]
+    mcs = res[1:]
+    for m, want_states in zip(mcs, expected_states):
+        if m.distinct != want_states:        # vacuity guard: one state per input, invariants evaluated on each
+            raise InfraError("laws: TLC explored %d inputs in %s, expected %d" % (m.distinct, m.dir, want_states))
     law_states = sum(m.distinct for m in mcs)
-    if law_states != n_rsc + nep:
-        raise InfraError("laws: TLC explored %d inputs, expected %d" % (law_states, n_rsc + nep))
-    tlc_wall = sum(r.wall for r in res[1:])
-    ctx.log("laws on the reference: %d inputs (one state each), ok; tabulated in %d TLC runs (%.0fs JVM wall in total)"
-            % (law_states, len(tab_jobs), tlc_wall))
+    tlc_wall = sum(m.wall for m in mcs)
+    ctx.log("laws on the reference: %d inputs (one state each, 15 invariants), ok; reference tabulated; %d TLC runs (%.0fs JVM wall in total)"
+            % (law_states, len(jobs), tlc_wall))
 
     # ---- 3. real code on the whole tabulated domain
     outdir = ctx.subdir("real")
@@ -212,7 +199,9 @@ def run(ctx):
     crow = rt.drive(ctx, binary, "TestVerifC35Table", os.path.join(outdir, "canary.ndjson"), env={"VERIF_TABLES": bad_canary})
     ckeys = set(r["key"] for r in crow if r.get("kind") == "mismatch")
     want = {"rev-string: Revision{-3}.String()", 'rev-rejects-valid: ParseRevision("x0")'}
-    if not want <= ckeys:
+    # (only demanded when the real code agreed with the table: if it did not, the differences reported above already
+    #  show that the binding is live, and a canary entry could coincide with what a broken tree really does)
+    if tst["mismatches"] == 0 and not want <= ckeys:
         raise InfraError("binding canary: corrupted table entries were not reported by the driver (got %s)" % sorted(ckeys))
 
     # ---- 4. laws directly on the real outputs
@@ -228,9 +217,9 @@ def run(ctx):
     # ---- 5. I->T: seeded random inputs beyond the bound
     obsdir = ctx.subdir("obs")
     allobs = os.path.join(obsdir, "all.ndjson")
-    nrand = ctx.pick(3000, 60000)
+    nrand = ctx.pick(3000, 40000)
     rt.drive(ctx, binary, "TestVerifC35Random", allobs, env={"VERIF_N": nrand})
-    chunks, nobs = rt.split_ndjson(allobs, ctx.pick(2, 12), obsdir)
+    chunks, nobs = rt.split_ndjson(allobs, ctx.pick(2, 8), obsdir)
     obs = {o["case"]: o for o in common.read_ndjson(allobs)}
 
     def val(i, p):
@@ -241,25 +230,26 @@ def run(ctx):
     c_rev["got"]["back"]["n"] += 1
     c_ep = json.loads(json.dumps(next(o for o in obs.values() if o["kind"] == "epoch")))
     c_ep["got"]["canread"] = not c_ep["got"]["canread"]
-    c_ep2 = json.loads(json.dumps(next(o for o in obs.values() if o["kind"] == "epoch" and o["got"]["valid"])))
-    c_ep2["got"]["valid"] = False
+    c_ep2 = json.loads(json.dumps(next((o for o in obs.values() if o["kind"] == "epoch" and o["got"]["valid"]), c_ep)))
+    c_ep2["got"]["valid"] = not c_ep2["got"]["valid"]
     cpath = os.path.join(obsdir, "corrupt.ndjson")
     others = [o for o in list(obs.values())[:12] if o["case"] not in (c_rev["case"], c_ep["case"], c_ep2["case"])]
     common.write_ndjson(cpath, [c_rev, c_ep, c_ep2] + others)
     cjob = lambda: rt.validate_obs(ctx, "TraceRevEpoch", "TraceRevEpoch.cfg", cpath,
                                    os.path.join(obsdir, "verdict_corrupt.json"), name="obs_corrupt", timeout=TLC_TIMEOUT)
     vres = rt.parallel([cjob] + [val(i, p) for i, p in enumerate(chunks)], par)
-    cv, _ = vres[0]
-    cbad = sorted(b["case"] for b in cv["bad"])
-    if cbad != sorted({c_rev["case"], c_ep["case"], c_ep2["case"]}):
-        raise InfraError("binding canary: corrupted observations %s, TraceRevEpoch rejected %s"
-                         % (sorted({c_rev["case"], c_ep["case"], c_ep2["case"]}), cbad))
     checked = rand_bad = 0
     for v, _ok in vres[1:]:
         checked += v["checked"]
         for b in v["bad"]:
             rand_bad += 1
             violations.append(_obs_violation(obs[b["case"]], b, ctx.seed))
+    cv, _ = vres[0]
+    cbad = sorted(b["case"] for b in cv["bad"])
+    # (demanded only when every genuine observation was accepted, for the same reason as above)
+    if rand_bad == 0 and cbad != sorted({c_rev["case"], c_ep["case"], c_ep2["case"]}):
+        raise InfraError("binding canary: corrupted observations %s, TraceRevEpoch rejected %s"
+                         % (sorted({c_rev["case"], c_ep["case"], c_ep2["case"]}), cbad))
     if checked != nobs or nobs != nrand:
         raise InfraError("I->T: %d observations requested, %d written, %d validated" % (nrand, nobs, checked))
     kinds = {}
@@ -268,7 +258,7 @@ def run(ctx):
         kinds[o["kind"]] = kinds.get(o["kind"], 0) + 1
         if o["kind"] == "epoch" and o["got"]["valid"]:
             valid_rand += 1
-    if valid_rand < kinds.get("epoch", 0) // 10:
+    if valid_rand < kinds.get("epoch", 0) // 10 and not violations:
         raise InfraError("vacuity guard: only %d of %d random epochs are valid" % (valid_rand, kinds.get("epoch", 0)))
     ctx.log("I->T: %d random observations %s validated by TLC, %d rejected" % (checked, kinds, rand_bad))
 
@@ -322,8 +312,11 @@ def run(ctx):
         "tlc_law_states": law_states,
         "tlc_law_invariants": 15,
         "tlc_constants": {"MaxLen": maxlen, "ListLen": listlen, "RevBound": 12, "StrAlphabet": STR_ALPHABET},
-        "tlc_runs": {"laws": len(law_jobs), "tables": len(tab_jobs), "trace": len(chunks) + 1},
-        "binding_canaries": "2 corrupted table entries and 3 corrupted observations all rejected and named",
+        "tlc_runs": {"laws_and_tables": len(jobs), "trace": len(chunks) + 1},
+        "tlc_wall_s": {"laws_and_tables": round(tlc_wall, 1)},
+        "binding_canaries": ("2 corrupted table entries and 3 corrupted observations all rejected and named" if not violations else
+                             "table canary %s, observation canary %s (canaries are only demanded for stages without genuine differences)"
+                             % ("reported" if want <= ckeys else "not demanded", "rejected %s" % cbad)),
     }
     return Result(level="exploration", coverage=cov,
                   assumptions=[
